@@ -651,6 +651,7 @@ pub fn run<C: Codec>(tier: Tier) -> i32 {
     ctx.run::<Stack>();
     ctx.run::<OutstationScript>();
     super::c01m::run_master::<C>(&mut ctx);
+    ctx.run::<super::c01u::Udp>();
     ctx.finish()
 }
 
@@ -659,4 +660,5 @@ pub fn replay<C: Codec>(text: &str, known: &[Known]) -> Option<i32> {
         .or_else(|| replay_file::<C, Stack>(text, known))
         .or_else(|| replay_file::<C, OutstationScript>(text, known))
         .or_else(|| super::c01m::replay_master::<C>(text, known))
+        .or_else(|| replay_file::<C, super::c01u::Udp>(text, known))
 }
